@@ -23,8 +23,9 @@ import (
 func pick[T any](rng *rand.Rand, xs []T) T { return xs[rng.IntN(len(xs))] }
 
 func genPeer(rng *rand.Rand, allowRaw bool) PeerSpec {
-	if allowRaw && rng.IntN(6) == 0 {
-		return PeerSpec{Kind: "raw", Mode: pick(rng, []string{"silent", "partial", "garbage", "stall", "mcast2"}), Proto: "tcp"}
+	if allowRaw && rng.IntN(4) == 0 {
+		return PeerSpec{Kind: "raw", Mode: pick(rng, []string{"silent", "partial", "garbage", "stall", "mcast2",
+			"redun-play-tcp", "redun-play-tcp", "redun-play-udp", "redun-play-udp", "redun-record-tcp"}), Proto: "tcp"}
 	}
 	ps := PeerSpec{Kind: "client", Mode: pick(rng, []string{"play", "play", "record"}), Proto: pick(rng, []string{"udp", "tcp"}),
 		Park: 1 + rng.IntN(StepFlow2)}
@@ -100,6 +101,9 @@ func genSpec(rng *rand.Rand, id int) Spec {
 			sp.Peers = append(sp.Peers, PeerSpec{Kind: "raw", Mode: "stall", Proto: "tcp"})
 			sp.Hammer = true
 		}
+		if rng.IntN(3) == 0 {
+			sp.Peers = append(sp.Peers, PeerSpec{Kind: "raw", Mode: pick(rng, []string{"redun-play-tcp", "redun-play-udp"}), Proto: "tcp"})
+		}
 		if rng.IntN(4) == 0 {
 			// a multicast reader whose second SETUP races with ServerStream.Close (fixed: 7ba1087)
 			for k := 1 + rng.IntN(4); k > 0; k-- {
@@ -117,9 +121,14 @@ func genSpec(rng *rand.Rand, id int) Spec {
 		sp.ClosePoint = rng.IntN(StepTeardown)
 		k := rng.IntN(100)
 		switch {
-		case k < 75:
+		case k < 55:
 			sp.ServerKind = "real"
-		case k < 85:
+		case k < 78:
+			// a scripted server that sends bursts (several requests / frames / responses in one write)
+			sp.ServerKind = "script"
+			sp.Peers[0].Proto = "tcp"
+			genBurst(rng, &sp)
+		case k < 86:
 			sp.ServerKind = "mute"
 			sp.ClosePoint = StepStart
 			sp.During = true
@@ -133,6 +142,40 @@ func genSpec(rng *rand.Rand, id int) Spec {
 		}
 	}
 	return sp
+}
+
+var burstKinds = []string{"req-options", "req-setparam", "req-getparam", "frame", "frame-bad-channel", "response-stray", "garbage"}
+
+// request number (script server) -> protocol step of the client that sends it
+var reqStep = []int{0, StepOptions, StepDescribe, StepSetup0, StepSetup1, StepPlay, StepPause, StepPlay2}
+
+// genBurst picks a burst and a close moment next to it.
+func genBurst(rng *rand.Rand, sp *Spec) {
+	sp.BurstStep = 1 + rng.IntN(7)
+	n := 2 + rng.IntN(2)
+	sp.Burst = nil
+	for i := 0; i < n; i++ {
+		sp.Burst = append(sp.Burst, pick(rng, burstKinds))
+	}
+	if rng.IntN(3) == 0 { // the combination that makes the main routine leave while the reader still has a request
+		sp.Burst = []string{"req-setparam", pick(rng, []string{"req-options", "req-getparam", "req-setparam"})}
+		if rng.IntN(2) == 0 {
+			sp.Burst = append(sp.Burst, pick(rng, burstKinds))
+		}
+	}
+	sp.BurstFirst = rng.IntN(4) == 0
+	step := reqStep[sp.BurstStep]
+	switch rng.IntN(3) {
+	case 0: // Close lands while the step that triggers the burst is running
+		sp.ClosePoint, sp.During, sp.DelayUs = step-1, true, rng.IntN(600)
+		if step == StepPause {
+			sp.ClosePoint = StepFlow
+		}
+	case 1: // right after that step
+		sp.ClosePoint, sp.During, sp.DelayUs = step, false, rng.IntN(300)
+	default: // during the following step
+		sp.ClosePoint, sp.During, sp.DelayUs = step, true, rng.IntN(600)
+	}
 }
 
 // sweep enumerates target × mode × transport × close point × (between | during).
@@ -175,6 +218,43 @@ func sweep(rng *rand.Rand) []Spec {
 						id++
 					}
 				}
+			}
+		}
+	}
+	// redundant requests (PLAY twice, PAUSE twice, …) before the close moment
+	for _, target := range []string{"server", "stream", "session"} {
+		for _, mode := range []string{"redun-play-tcp", "redun-play-udp", "redun-record-tcp"} {
+			if target != "server" && mode == "redun-record-tcp" {
+				continue
+			}
+			for rep := 0; rep < 3; rep++ {
+				sp := Spec{ID: id, Target: target, ClosePoint: StepSetup0 + rng.IntN(StepFlow2-StepSetup0), During: rep == 1, Procs: pick(rng, []int{1, 2, 4, 8}),
+					WriteTimeout: 400, Seed: rng.Uint64(), Noise: rng.IntN(3), Hammer: rep == 2,
+					Peers: []PeerSpec{{Kind: "client", Mode: "play", Proto: pick(rng, []string{"udp", "tcp"})},
+						{Kind: "raw", Mode: mode, Proto: "tcp"}, {Kind: "raw", Mode: mode, Proto: "tcp"}}}
+				out = append(out, sp)
+				id++
+			}
+		}
+	}
+	// bursts from a scripted server at every request of the client, Close next to the burst
+	for bs := 1; bs <= 7; bs++ {
+		for _, burst := range [][]string{{"req-setparam", "req-options"}, {"req-options", "req-getparam", "frame"}, {"frame", "response-stray", "req-setparam", "req-options"}} {
+			for _, mode := range []string{"play", "record"} {
+				sp := Spec{ID: id, Target: "client", ServerKind: "script", BurstStep: bs, Burst: burst, Procs: pick(rng, []int{1, 2, 4, 8}),
+					WriteTimeout: 400, Seed: rng.Uint64(), Noise: rng.IntN(3), BurstFirst: rng.IntN(4) == 0,
+					Peers: []PeerSpec{{Kind: "client", Mode: mode, Proto: "tcp"}}}
+				step := reqStep[bs]
+				if rng.IntN(2) == 0 {
+					sp.ClosePoint, sp.During, sp.DelayUs = step, rng.IntN(2) == 0, rng.IntN(400)
+				} else {
+					sp.ClosePoint, sp.During, sp.DelayUs = step-1, true, rng.IntN(500)
+					if step == StepPause {
+						sp.ClosePoint = StepFlow
+					}
+				}
+				out = append(out, sp)
+				id++
 			}
 		}
 	}
@@ -517,7 +597,7 @@ func Run(ctx *corr.Ctx) {
 		for _, f := range []struct {
 			on   bool
 			name string
-		}{{sp.Hammer, "with:hammer"}, {sp.Joiner, "with:joiner"}, {sp.PeerTeardown, "with:peer-teardown"}, {sp.ServerKind == "stall", "with:stalled-server"}, {sp.ServerKind == "mute", "with:mute-server"}, {sp.SlowCbUs > 0, "with:slow-callbacks"}} {
+		}{{sp.Hammer, "with:hammer"}, {sp.Joiner, "with:joiner"}, {sp.PeerTeardown, "with:peer-teardown"}, {sp.ServerKind == "stall", "with:stalled-server"}, {sp.ServerKind == "mute", "with:mute-server"}, {sp.ServerKind == "script", "with:script-server-burst"}, {sp.SlowCbUs > 0, "with:slow-callbacks"}} {
 			if f.on {
 				ctx.Dist(f.name)
 			}
